@@ -7,6 +7,35 @@ use std::sync::{Mutex, Once};
 pub struct PanicInfo {
     pub loc: String,
     pub msg: String,
+    /// "erg" (the code under test), "harness" or "unknown"
+    pub origin: String,
+}
+
+/// Whose code panicked: decided from the panic location, and for locations inside the
+/// standard library / third-party crates from the innermost named frame of a backtrace.
+fn origin_of(loc: &str) -> String {
+    let l = loc.replace('\\', "/");
+    let repo = crate::util::repo_root().to_string_lossy().to_string();
+    if l.contains("/verif/") || l.starts_with("src/props") || l.starts_with("src/ergx") || l.starts_with("src/gen") || l.starts_with("src/main") || l.starts_with("src/engine") {
+        return "harness".into();
+    }
+    if l.starts_with(&repo) || l.contains("/crates/erg_") || l.contains("/crates/els/") || l.starts_with("crates/") {
+        return "erg".into();
+    }
+    let bt = std::backtrace::Backtrace::force_capture().to_string();
+    for line in bt.lines() {
+        let t = line.trim();
+        if t.contains("vkit::panics") || t.contains("std::panic") || t.contains("core::panic") || t.contains("rust_begin_unwind") {
+            continue;
+        }
+        if t.contains("erg_parser::") || t.contains("erg_compiler::") || t.contains("erg_common::") || t.contains("els::") || t.contains("erg::") || t.contains("erg_linter::") {
+            return "erg".into();
+        }
+        if t.contains("vcheck::") || t.contains("vkit::") || t.contains("vlsp::") {
+            return "harness".into();
+        }
+    }
+    "unknown".into()
 }
 
 static LAST: Mutex<Vec<PanicInfo>> = Mutex::new(Vec::new());
@@ -26,8 +55,9 @@ pub fn install() {
             } else {
                 "<non-string panic>".into()
             };
+            let origin = origin_of(&loc);
             if let Ok(mut g) = LAST.lock() {
-                g.push(PanicInfo { loc, msg });
+                g.push(PanicInfo { loc, msg, origin });
             }
         }));
     });
@@ -58,8 +88,11 @@ pub fn catch<T>(f: impl FnOnce() -> T) -> Result<T, PanicInfo> {
 /// (`/repo/crates/erg_parser/lex.rs:12` -> `erg_parser/lex.rs:12`).
 pub fn norm_loc(loc: &str) -> String {
     let l = loc.replace('\\', "/");
+    let repo = format!("{}/", crate::util::repo_root().to_string_lossy());
     if let Some(i) = l.find("crates/") {
         l[i + 7..].to_string()
+    } else if let Some(rest) = l.strip_prefix(&repo) {
+        rest.to_string()
     } else if let Some(i) = l.find("/repo/") {
         l[i + 6..].to_string()
     } else {
